@@ -686,7 +686,7 @@ impl Property for C06 {
         };
         let v = match obs {
             Obs::Ok(v) => v,
-            Obs::TimedOut => {
+            Obs::TimedOut | Obs::Hung { .. } => {
                 j.verdict = Verdict::Inconclusive(format!("watchdog: {}", fname));
                 return j;
             }
